@@ -44,6 +44,7 @@ class Tracer:
         self._orig: dict[str, Any] = {}
         self._depth = 0
         self.saves: dict[str, tuple[int, int]] = {}   # content key -> (trace, pos)
+        self.unavailable: list[str] = []
 
     # ---- observation ------------------------------------------------------
     def _layers(self, pre: Any) -> list[Any]:
@@ -151,6 +152,13 @@ class Tracer:
         names = ['__init__', 'step', 'state_dict', 'load_state_dict',
                  'reset_batch', 'memory_usage', '_save_input',
                  '_save_grad_output']
+        # the two hook callbacks are private: if a refactoring renamed them
+        # the recorder cannot see passes -- it then records nothing and the
+        # caller skips direction B instead of raising a false alarm
+        self.unavailable = [n for n in names if not hasattr(B, n)]
+        if self.unavailable:
+            self._orig = {}
+            return self
         self._orig = {n: getattr(B, n) for n in names}
         o = self._orig
 
@@ -312,6 +320,10 @@ class Tracer:
         loaded a state saved by another traced instance gets that instance's
         events up to the save as its prefix (a resume)."""
         self.finish()
+        if self.unavailable:
+            return [{'cfg': {}, 'events': [], 'prefix': 0, 'supported': False,
+                     'why': 'recorder unavailable: BaseKFACPreconditioner has '
+                            f'no {self.unavailable}'}]
         out = []
         full: dict[int, list[dict[str, Any]]] = {}
         for pid in self.order:
